@@ -14,6 +14,21 @@ Proof. exact le_num_bound. Qed.
 Theorem C03_sunmd5_bit_is_0_or_1 : forall d off, 0 <= bit d off <= 1.
 Proof. exact bit_01. Qed.
 
+
+(* indA / indB: bit j of the gathered byte is the digest bit selected by ind7[base + j]; the byte has no other bit *)
+Theorem C03_sunmd5_gather_bit : forall d base j, Forall byte_ok d -> 0 <= j < 8 ->
+  Z.testbit (gather d base) j = Z.testbit (le_num d) (ind7 d (base + j) mod 128).
+Proof. exact gather_bit. Qed.
+
+Theorem C03_sunmd5_gather_is_a_byte : forall d base, 0 <= gather d base < 256.
+Proof. exact gather_bound. Qed.
+
+(* the coin is the XOR of two digest bits *)
+Theorem C03_sunmd5_coin_is_xor_of_digest_bits : forall d i, Forall byte_ok d ->
+  coin d i = xorb (Z.testbit (le_num d) ((Z.land (Z.shiftr (gather d 0) (bit d i)) 127) mod 128))
+                  (Z.testbit (le_num d) ((Z.land (Z.shiftr (gather d 8) (bit d (u32 (i + 64)))) 127) mod 128)).
+Proof. exact coin_is_xor_of_digest_bits. Qed.
+
 (* non-vacuity: a concrete 16-byte digest; selector 130 wraps to bit 2 of byte 0, selector 127 is the top bit of byte 15 *)
 Example C03_sunmd5_bit_example :
   let d := [5; 0; 0; 0; 0; 0; 0; 0; 0; 0; 0; 0; 0; 0; 0; 128] in
